@@ -5,6 +5,7 @@ from __future__ import annotations
 from ..interp import alternatives, analyze, truth
 from ..model import AnalysisError, Model
 from ..report import Ctx, where
+from ..strtpl import flatten
 from ..terms import NONE, show, walk
 
 S = ("param", "self")
@@ -324,7 +325,7 @@ def f3_join(ctx: Ctx):
            node, "normalize_path(path) iff '.' in path")
         rooted = truth(("cmp", "Eq", ("sub", rp, ("const", 0)), ("const", "/")), f)
         if rooted is True:
-            ob("path-rooted", "rooted reference path", core == rp, "a rooted reference path replaces the base path", node, "url._path")
+            ob("path-rooted", "rooted reference path", flatten(core) == [("val", rp)], "a rooted reference path replaces the base path", node, "url._path")
             continue
         if rooted is None:
             ob("path-undecided", "path selection", False, "path selection does not test whether the reference path is rooted", node, "")
@@ -332,12 +333,12 @@ def f3_join(ctx: Ctx):
         bp_t = truth(bp, f)
         if bp_t is False:
             has_auth = truth(bn, f)
-            slash = core == ("fstr", (("const", "/"), ("fmt", rp, None, None)))
+            slash = flatten(core) == [("lit", "/"), ("val", rp)]        # f"/{p}", "/" + p, ...
             if has_auth is True:
                 ob("merge-empty-auth", "merge with an empty base path under an authority", slash,
                    "with an authority and an empty base path the merged path is '/' + reference path (RFC 3986 5.2.3)", node, "'/' + url._path")
             elif has_auth is False:
-                ob("merge-empty-noauth", "merge with an empty base path and no authority", core == rp,
+                ob("merge-empty-noauth", "merge with an empty base path and no authority", flatten(core) == [("val", rp)],
                    "without an authority an empty base path merges to the reference path itself: a leading '/' must not be "
                    "invented (URL('').join(URL('b')) is 'b', not '/b')", node, "url._path")
             else:
